@@ -13,6 +13,11 @@ RuleTab == [ r1 |-> [sal |->  10, ag |-> "MAIN", grp |-> "none", noLoop |-> TRUE
              r5 |-> [sal |->   7, ag |-> "G",    grp |-> "none", noLoop |-> FALSE, lock |-> TRUE,  auto |-> FALSE],
              r6 |-> [sal |->  -3, ag |-> "G",    grp |-> "none", noLoop |-> TRUE,  lock |-> FALSE, auto |-> TRUE] ]
 RuleNames == DOMAIN RuleTab
+(* overridable pieces of the alphabet (the deep configuration adds only three rules with one condition count) *)
+AddNames == RuleNames
+CCs == {1, 3}
+ThreeRules == {"r1", "r2", "r5"}       \* a salience tie in MAIN and a lock-on-active rule in G
+OneCC == {1}
 Groups == {"MAIN", "G"}
 
 VARIABLES pend,        \* set of pending activations [id, rule]; id = creation order
@@ -39,7 +44,7 @@ Add(r) ==
        /\ IF skip THEN UNCHANGED <<pend, nextId>>
           ELSE pend' = pend \cup {[id |-> nextId, rule |-> r]} /\ nextId' = nextId + 1
        /\ UNCHANGED <<firedRules, firedGrp, locked, lastRet, disciplined, retLog>>
-       /\ \E cc \in {1, 3} : last' = [op |-> "add", r |-> r, cc |-> cc]   \* condition count: irrelevant under the default (salience) strategy
+       /\ \E cc \in CCs : last' = [op |-> "add", r |-> r, cc |-> cc]   \* condition count: irrelevant under the default (salience) strategy
 
 Eligible(a) == /\ ~(Attr(a).noLoop /\ a.rule \in firedRules)
                /\ ~(Attr(a).lock /\ Attr(a).ag \in locked)
@@ -89,7 +94,7 @@ Clear == /\ pend' = {} /\ focus' = "MAIN" /\ stack' = <<>> /\ firedRules' = {} /
          /\ last' = [op |-> "clear"]
 
 Next == /\ nops' = nops + 1
-        /\ \/ \E r \in RuleNames : Add(r)
+        /\ \/ \E r \in AddNames : Add(r)
            \/ \E mk \in BOOLEAN : GetNext(mk)
            \/ \E g \in Groups : SetFocus(g)
            \/ ResetFired \/ Clear
